@@ -42,6 +42,7 @@ type Obligation struct {
 type Flow struct {
 	st      *State
 	kind    int
+	node    ast.Node // goto flows: the branch statement
 	label   string
 	results []Val
 	msg     string
